@@ -25,7 +25,10 @@ type Syncers struct {
 	ShutdownDone bool
 	Panics       []string
 	// Virtual time bookkeeping for C07.
-	NonFinalSyncTimes []time.Time
+	NonFinalSyncTimes  []time.Time
+	SyncStartCancelled []bool
+	Retries            int // retry timers fired
+	EpochTimers        int // epoch timers fired
 }
 
 func (w *World) syn() *Syncers {
@@ -36,6 +39,10 @@ func (w *World) syn() *Syncers {
 			if name == "SyncStartingFinal" {
 				w.Closed = true
 				w.logf("  [final sync starting: store closed for writing]")
+			}
+			if name == "SyncStarting" {
+				w.Sy.NonFinalSyncTimes = append(w.Sy.NonFinalSyncTimes, w.St.Clock.Now())
+				w.Sy.SyncStartCancelled = append(w.Sy.SyncStartCancelled, w.Sy.Cancelled)
 			}
 		}
 	}
@@ -197,6 +204,11 @@ func (w *World) stepSyncer(who string, th *sim.Thread, extraDelay time.Duration)
 				w.St.Clock.AdvanceTo(t.Deadline.Add(extraDelay))
 			}
 			w.St.Clock.Fire(t)
+			if isRetry {
+				sy.Retries++
+			} else {
+				sy.EpochTimers++
+			}
 			w.logf("%s: timer (%v) fired at +%v", who, t.Duration, w.St.Clock.Now().Sub(w.T0))
 		}
 	}
@@ -268,18 +280,22 @@ func (w *World) Shutdown() {
 func (w *World) Drain() time.Duration {
 	sy := w.syn()
 	start := w.St.Clock.Now()
+	w.ReleaseClearedAt = time.Time{}
 	for i := 0; ; i++ {
 		if i > 10000 {
 			w.fatalf("C07: drain did not terminate within 10000 steps (persistence stalled or retry loop never succeeds)")
 		}
 		w.Poll()
+		if !w.ReleaseWakeupPending() && sy.R == nil && w.ReleaseClearedAt.IsZero() {
+			w.ReleaseClearedAt = w.St.Clock.Now()
+		}
 		switch {
 		case w.CanStepR():
 			w.StepR(0)
-		case sy.S != nil && w.CanStepS():
-			w.StepS(0)
 		case sy.R == nil && w.ReleaseWakeupPending():
 			w.StartR()
+		case sy.S != nil && w.CanStepS():
+			w.StepS(0)
 		case sy.S == nil && !sy.ShutdownDone && (w.PutWakeupPending() || sy.Cancelled):
 			w.StartS()
 		default:
@@ -510,3 +526,6 @@ func (w *World) CheckSurvivorsFresh(what string, ci *CrashImage, must []ObjInst)
 		n.Close()
 	}
 }
+
+// Syn returns the syncer state (creating it on first use).
+func (w *World) Syn() *Syncers { return w.syn() }
